@@ -148,6 +148,59 @@ theorem convert_idem (nm nm' : List Desc → String) (order order' : List (Strin
 /-- the second run sees a layout that is marked as converted, whatever the first one started from -/
 example (x : IState) : (persist (ingest idxName id x)).converted = true := ingest_converted_true idxName id x
 
+/-- **convert_interrupted_partial.** A conversion that is interrupted after it has written some of its response
+    blobs (`pre`) and before it has saved index.json leaves the old index.json next to the blobs `x.blobs ++ pre`.
+    Converting that layout — with any map order — gives exactly what the uninterrupted conversion of `x` gives.
+    (After index.json has been saved the layout is marked as converted: that case is `convert_idem`.  Temporary
+    files of the interrupted run are not blobs and not part of the model; the harness leaves some behind.)
+
+    Excluded (hence `_partial`): as for `convert_order_indep_partial`, and layouts that mention — at top level or
+    inside an index blob — the digest of a response the conversion is going to write although no such blob exists
+    yet (`hfresh`): for such a layout the blob written before the interruption would be read by the second run
+    but was not there for the first. -/
+theorem convert_interrupted_partial (nm : List Desc → String)
+    (order order' : List (String × List Desc) → List (String × List Desc))
+    (horder : ∀ l, (order l).Perm l) (horder' : ∀ l, (order' l).Perm l) (x : IState) (hc : x.converted = false)
+    (hnb : NoBoth x.index.manifests) (hch : x.index.children = []) (hne : lookup x.blobs "" = none)
+    (hrp : ∀ e ∈ x.index.manifests, e.ann.isNil = false → e.ann.subj ≠ "" → (lookup x.blobs e.dig).isSome = true)
+    (hcas : ∀ ds n, lookup x.blobs (nm ds) = some n → n = .idx ds) (hnm : NoCollision nm x)
+    (pre : List (String × INode))
+    (hpre : ∀ kv ∈ pre, ∃ l, Written x l ∧ kv = (nm l, INode.idx l))
+    (hfresh : ∀ kv ∈ pre, Mentioned x kv.1 → (lookup x.blobs kv.1).isSome = true) :
+    ObsEq (ingest nm order' { x with blobs := x.blobs ++ pre }) (ingest nm order x) := by
+  have hrp' : RespPresent x.blobs (pass1 x.index.manifests).respOf := by
+    intro S' r hr
+    obtain ⟨hrm, _, hrn, hrs, hS'⟩ := (pass1_respOf x.index.manifests S').1 r hr
+    exact hrp r hrm hrn (by rw [hrs]; exact hS')
+  exact convert_interrupted_main nm order order' horder horder' x hc hnb hch hne hrp' hnm hcas pre hpre hfresh
+
+/-- the hypotheses are satisfiable with a non-empty `pre`: the one response that the conversion of `sample` writes,
+    under a digest "N" that the layout does not mention -/
+example : ∃ pre : List (String × INode), pre ≠ [] ∧
+    (∀ kv ∈ pre, ∃ l, Written sample l ∧ kv = ((fun _ => "N") l, INode.idx l)) ∧
+    (∀ kv ∈ pre, Mentioned sample kv.1 → (lookup sample.blobs kv.1).isSome = true) ∧
+    (∀ ds n, lookup sample.blobs ((fun _ => "N") ds) = some n → n = .idx ds) := by
+  have h1 : (phase1 sample).addResp.length = 1 := by decide
+  match hl : (phase1 sample).addResp, h1 with
+  | [a], _ =>
+    refine ⟨[("N", .idx (regenList sample.blobs (phase1 sample).respOf a))], by simp, ?_, ?_, ?_⟩
+    · intro kv hkv
+      simp only [List.mem_singleton] at hkv
+      exact ⟨_, ⟨a, by rw [hl]; simp, rfl⟩, hkv⟩
+    · intro kv hkv hm
+      simp only [List.mem_singleton] at hkv
+      subst hkv
+      exfalso
+      have hN1 : ∀ e ∈ sample.index.manifests, e.dig ≠ "N" := by decide
+      have hN2 : "N" ∉ listed sample.blobs := by decide
+      rcases hm with ⟨e, he, hd⟩ | hm
+      · exact hN1 e he hd
+      · exact hN2 hm
+    · intro ds n h
+      have hN3 : lookup sample.blobs "N" = none := by rfl
+      simp only at h
+      rw [hN3] at h; cases h
+
 /-! ## the iteration order of the Go map does not matter -/
 
 /-- **convert_order_indep_partial.** For any two orders in which Go may iterate over `addResp` the results agree
